@@ -23,6 +23,7 @@ func init() {
 			"(O) order: the lock-order graph built from all acquisitions (local and may-entry locksets) has no cycle; (L) no leak: a slice/map kept under a lock is not handed out of the critical section un-cloned by a function that takes the lock itself; (A) a field accessed through sync/atomic functions is accessed plainly (also as part of a whole-struct copy) only where a common lock orders the two. " +
 			"(S) no panic from a stale position: the refresh copies metadata back into the live list array by looking the list up again under the lock, never through an index remembered from before the unlocked download (the C15-D3 rule). " +
 			"(L, cont.) ClientRuntime hands the request path nil or a clone of the stored runtime client, never the stored object. " +
+			"(P) lock pairing: in every function of the serving and configuration packages each Lock/RLock is followed, on every path to a return, by the matching unlock or by a deferred unlock registered on that path (a leaked read lock blocks the next writer and, behind it, every reader). " +
 			"Not decided: absence of all data races (instances of one type are conflated, third-party internals, happens-before through channels and sync.Once are not modelled), panics in general, well-formedness and latency of responses.",
 		RuleText:    "Must-lockset dataflow per function, must/may entry locksets by fixpoint over the VTA call graph, field accesses from SSA FieldAddr users.",
 		Assumptions: []string{"lock and field identity are type-based", "functions reachable only from start-up (table of init-phase callers) run before any concurrency", "VTA resolves the func-valued fields and interfaces on the DNS path"},
@@ -87,6 +88,7 @@ func runC05(c *Ctx) {
 	}
 	// no panic: positions in the live list array are never carried across the unlocked download
 	refreshMetadata(c, "C05-S")
+	c05LockPairing(c)
 	scope := func(fn *ssa.Function) bool { return c05Pkgs[core.PkgOf(fn)] }
 	ignore := func(fn *ssa.Function) bool {
 		_, ok := c05InitCallers[core.FuncKey(fn)]
@@ -918,4 +920,85 @@ func c05InPlaceWriters(w *core.LockWorld, tracked func(core.FieldRef) bool) map[
 		}
 	}
 	return out
+}
+
+// c05HeldOnPurpose lists functions that return with a lock held by design (none in the verified tree).
+var c05HeldOnPurpose = map[string]string{}
+
+// c05LockPairing: every acquisition of a mutex in the serving and configuration packages is released on every
+// path to a return of the acquiring function — by an unlock call on the path or by a deferred unlock registered on
+// the path.  A read lock that leaks is invisible until the next writer arrives and then blocks every later reader:
+// serving stops (C05's "no deadlock").
+func c05LockPairing(c *Ctx) {
+	p, r := c.P, c.R
+	n := 0
+	per := map[string]int{}
+	var fns []*ssa.Function
+	for _, fn := range p.ModFns {
+		if fn.Blocks == nil || core.IsNextPkg(fn) || !c05Pkgs[core.PkgOf(fn)] {
+			continue
+		}
+		fns = append(fns, fn)
+	}
+	for _, fn := range fns {
+		for _, b := range fn.Blocks {
+			for i, in := range b.Instrs {
+				call, ok := in.(*ssa.Call)
+				if !ok {
+					continue
+				}
+				op, ok := core.LockOpOf(call.Common())
+				if !ok || !op.Acquire {
+					continue
+				}
+				n++
+				fk := core.FuncKey(fn)
+				per[fk+"|"+string(op.Lock)]++
+				key := fmt.Sprintf("lock-released-on-every-path:%s:%s#%d", fk, op.Lock, per[fk+"|"+string(op.Lock)])
+				if why, ok := c05HeldOnPurpose[fk]; ok {
+					r.Ok("C05-P", key, p.InstrPos(in), why)
+					continue
+				}
+				// the same mutex: the same field path, or — for a mutex handed in as a value — the same value
+				same := func(cc *ssa.CallCommon) bool {
+					o2, ok := core.LockOpOf(cc)
+					if !ok || o2.Acquire {
+						return false
+					}
+					if strings.HasPrefix(string(op.Lock), "unknown@") || strings.HasPrefix(string(o2.Lock), "unknown@") {
+						return len(cc.Args) > 0 && core.SameValue(cc.Args[0], call.Common().Args[0])
+					}
+					return o2.Lock == op.Lock
+				}
+				releases := func(x ssa.Instruction) bool {
+					switch y := x.(type) {
+					case *ssa.Call:
+						return same(y.Common())
+					case *ssa.Defer:
+						if same(y.Common()) {
+							return true
+						}
+						if mc, ok := y.Common().Value.(*ssa.MakeClosure); ok {
+							if cf, ok := mc.Fn.(*ssa.Function); ok {
+								for _, c2 := range core.Calls(cf) {
+									if o2, ok := core.LockOpOf(c2.Common); ok && !o2.Acquire && o2.Lock == op.Lock {
+										return true
+									}
+								}
+							}
+						}
+					}
+					return false
+				}
+				found, tr, _ := core.Reach(core.Query{From: []core.Point{{Block: b, Idx: i + 1}}, Target: func(x ssa.Instruction) bool {
+					_, isRet := core.AsReturn(x)
+					return isRet
+				}, Avoid: releases})
+				r.Check(!found, "C05-P", key, p.InstrPos(in),
+					"the lock is released (or its release deferred) on every path from the acquisition to a return",
+					fmt.Sprintf("%s can return with %s still held: the next writer blocks forever and every later reader queues behind it (serving stops)", fk, op.Lock), p.TraceString(tr))
+			}
+		}
+	}
+	r.Floor("C05-P", "lock-acquisitions", n, 1)
 }
